@@ -480,6 +480,8 @@ class Interp:
             self.mem = saved_mem
             del self.cuts[saved_cuts:]
         # cut
+        if g is not None and not g.decl:
+            self.prog.__dict__.setdefault("_cut_callees", set()).add(g.key)
         cid = len(self.cuts)
         cut = {"call": i, "f": f, "ins": [], "outs": []}
         for k, a in enumerate(args):
